@@ -81,7 +81,7 @@ def world_truth_outputs(world, plan, prog, now):
     return out
 
 
-def run_case(case, monitors=(), max_restarts=0, setup=None):
+def run_case(case, monitors=(), max_restarts=0, setup=None, lifecycle=None):
     """Run a case once (no restarts unless a driver handles them)."""
     prog = case.prog or case.build()
     plan = OutcomePlan(derive_seed(case.seed, 'plan'), prog,
@@ -107,8 +107,11 @@ def run_case(case, monitors=(), max_restarts=0, setup=None):
             m.attach(h, res, case)
         if setup:
             setup(h, res, case)
-        info = h.run_once()
-        res.stops.append(info.reason)
+        if lifecycle is None:
+            info = h.run_once()
+            res.stops.append(info.reason)
+        else:
+            lifecycle(h, res)
         res.iterations = h.total_iterations
         res.sim_seconds = CLOCK.t
         res.log_tail = [m for _, m in h.log.records[-30:]]
@@ -133,3 +136,108 @@ class Monitor:
 
     def finish(self, h, res, case):
         pass
+
+
+# ---------------------------------------------------------------------------
+# commands, snapshots, multi-incarnation runs
+# ---------------------------------------------------------------------------
+
+def run_sync(coro):
+    """Drive a coroutine that never really suspends."""
+    try:
+        coro.send(None)
+    except StopIteration as exc:
+        return exc.value
+    coro.close()
+    raise HarnessError('coroutine suspended in synchronous context')
+
+
+def inject_command(h, name, kwargs):
+    """Queue an operator command through the shipped Resolvers code
+    (validation + queueing), as the server thread would."""
+    schd = h.schd
+    res = run_sync(schd.server.resolvers._mutation_mapper(name, kwargs, {}))
+    h.sim.log('command', name, jdump_short(kwargs), '->', jdump_short(res)[:60])
+    return res
+
+
+def jdump_short(obj):
+    import json
+    return json.dumps(obj, default=str, sort_keys=True)[:160]
+
+
+class CommandDriver(Monitor):
+    """Injects commands at (iteration, slot) interception points of the
+    command queue (slot 0/1 = first/second process_command_queue call)."""
+
+    def __init__(self, schedule):
+        # schedule: list of dicts {iter, slot, name, kwargs, incarnation}
+        self.schedule = list(schedule)
+        self.done = []
+
+    def attach(self, h, res, case):
+        self.h = h
+        self.slot = 0
+        h.pre_iter_hooks.append(self._new_iter)
+        h.intercept_hooks.append(self._intercept)
+        res.commands_done = self.done
+
+    def _new_iter(self, h):
+        self.slot = 0
+
+    def _intercept(self, h, label):
+        if label != 'command_queue' or h.schd is None:
+            return
+        it = h.iterations
+        slot = self.slot
+        self.slot += 1
+        for c in self.schedule:
+            if c.get('done'):
+                continue
+            if 'incarnation' in c and c['incarnation'] != h.incarnation:
+                continue
+            if 'at_time' in c:
+                due = CLOCK.t >= c['at_time']
+            else:
+                due = (c['iter'] == it and c.get('slot', 0) == slot) or (
+                    c['iter'] < it)
+            if due:
+                c['done'] = True
+                r = inject_command(h, c['name'], c['kwargs'])
+                self.done.append((CLOCK.t, h.incarnation, it, c['name'],
+                                  c['kwargs'], r))
+
+
+def snapshot(h):
+    """State of the scheduler that a restart must preserve."""
+    schd = h.schd
+    pool = schd.pool
+    tasks = {}
+    for i in pool.get_tasks():
+        st = i.state
+        prs = {}
+        for p in st.prerequisites:
+            for k, v in p.items():
+                prs['/'.join(map(str, k))] = bool(v)
+        tasks[i.identity] = {
+            'status': st.status,
+            'held': bool(st.is_held),
+            'flows': sorted(i.flow_nums),
+            'submit_num': i.submit_num,
+            'outputs': sorted(st.outputs.get_completed_outputs()),
+            'prereqs': prs,
+            'xtriggers': dict(st.xtriggers),
+            'manual': bool(i.is_manual_submit),
+            'flow_wait': bool(i.flow_wait),
+        }
+    return {
+        'tasks': tasks,
+        'hold_point': str(pool.hold_point) if pool.hold_point else None,
+        'stop_point': str(schd.config.stop_point) if schd.config.stop_point else None,
+        'pool_stop_point': str(pool.stop_point) if pool.stop_point else None,
+        'stop_task': pool.stop_task_id,
+        'tasks_to_hold': sorted(f'{p}/{n}' for n, p in pool.tasks_to_hold),
+        'broadcasts': jdump_short(schd.broadcast_mgr.broadcasts),
+        'flow_counter': schd.flow_mgr.counter,
+        'paused': bool(schd.is_paused),
+    }
